@@ -249,7 +249,10 @@ impl ValveProtocol {
                 Some(ModData {
                     link: buffer.read_string::<Utf8Decoder>(None)?,
                     download_link: buffer.read_string::<Utf8Decoder>(None)?,
-                    version: buffer.read()?,
+                    version: {
+                        buffer.move_cursor(1)?; // a NULL byte precedes the version
+                        buffer.read()?
+                    },
                     size: buffer.read()?,
                     multiplayer_only: buffer.read::<u8>()? == 1,
                     has_own_dll: buffer.read::<u8>()? == 1,
